@@ -3,8 +3,9 @@
    judged directly on the implementation by Run/C08run.v; the theorems here are about the
    string quoting of the printer model read back by the lexer model (the part of the law
    that depends on the characters of string values and descriptions). *)
-From Coq Require Import String List NArith.
-From GQL Require Import Base.Bytes Syntax.Lexer Syntax.Ast Syntax.Parser Syntax.Printer Proofs.SyntaxPrinter Proofs.SyntaxRender Syntax.Grammar Proofs.SyntaxTypeRT.
+From Coq Require Import String List NArith Bool.
+From GQL Require Import Base.Bytes Syntax.Lexer Syntax.Ast Syntax.Parser Syntax.Printer Proofs.SyntaxPrinter Proofs.SyntaxUtf8 Proofs.SyntaxRender Syntax.Grammar Proofs.SyntaxTypeRT
+  Proofs.SyntaxComplete Proofs.SyntaxRoundTrip Proofs.SyntaxRoundTripFinal.
 Import ListNotations.
 Open Scope N_scope.
 
@@ -32,10 +33,21 @@ Theorem C08_string_roundtrip_partial : forall s rest, (forall c, In c s -> c < 1
 Proof. exact quote_lex_roundtrip_ascii. Qed.
 Print Assumptions C08_string_roundtrip_partial.
 
+(* String contents survive print-then-lex for every valid UTF-8 string (single bytes below 128 and
+   genuinely decoded 2-, 3- and 4-byte sequences, so non-BMP code points, U+FFFF, U+2028, BOM ...):
+   multi-byte characters are written unescaped and read back byte for byte. *)
+Theorem C08_string_roundtrip : forall s rest, utf8_valid s ->
+  (s <> [] \/ forall r, rest <> 34 :: r) ->
+  exists q, quote_string s = Ok q /\
+    forall pos fuel, (length (q ++ rest) < fuel)%nat ->
+    read_token fuel (q ++ rest) pos = Ok (mktok STRING pos (pos + nlen q) s, rest, pos + nlen q).
+Proof. exact quote_lex_roundtrip_utf8. Qed.
+Print Assumptions C08_string_roundtrip.
+
 (* The token-boundary theorem for the printer's layouts (any layout, hence print_doc d for every
    document d): if every separator consists of spaces, newlines and commas, every name piece is a
    name and every number piece a number lexeme not followed by a character that would continue it,
-   every string piece consists of single-byte characters (and "" is not followed by a quote), and
+   every string piece is valid UTF-8 (and "" is not followed by a quote), and
    punctuator pieces carry no value ([layout_wfb], a decidable condition), then lexing the printed
    text gives back exactly the token pieces -- kind, value, and the byte offsets at which they were
    written -- followed by the EOF token, and no name is flagged as preceded by a multi-byte character. *)
@@ -61,6 +73,50 @@ Theorem C08_type_roundtrip : forall t, wf_ty t = true ->
       parse_type fuel (pe, ts ++ [eof_tok (nlen (print_type t))]) = Ok (t', (endof pe ts, [eof_tok (nlen (print_type t))])).
 Proof. exact type_roundtrip. Qed.
 Print Assumptions C08_type_roundtrip.
+
+(* The round-trip law for executable documents, on the models: if the source parses to the
+   executable document d and every string / block-string token of the source has a value of
+   single-byte characters (src_strings_utf8 -- the restriction of C08_string_roundtrip_partial),
+   then the printed text parses again, to a document equal to d up to locations
+   (erase_loc = the kind/field/value tree with every Loc zeroed). *)
+Theorem C08_roundtrip_exec_partial : forall src d mb,
+  parse src = Ok (d, mb) -> exec_only d = true -> src_strings_utf8 src = true ->
+  exists d', parse (print_doc d) = Ok (d', false) /\ erase_loc d' = erase_loc d.
+Proof.
+  intros src d mb H E A. destruct (roundtrip_exec src d mb H E A) as (d' & H1 & H2 & _). exists d'. split; assumption.
+Qed.
+Print Assumptions C08_roundtrip_exec_partial.
+
+(* Printing is stable after one round: the re-parsed document prints to the same text. *)
+Theorem C08_stable_partial : forall src d mb,
+  parse src = Ok (d, mb) -> exec_only d = true -> src_strings_utf8 src = true ->
+  exists d', parse (print_doc d) = Ok (d', false) /\ print_doc d' = print_doc d.
+Proof.
+  intros src d mb H E A. destruct (roundtrip_exec src d mb H E A) as (d' & H1 & _ & H3). exists d'. split; assumption.
+Qed.
+Print Assumptions C08_stable_partial.
+
+(* The same from token lists (any token list with well-formed lexemes, not only lexer output). *)
+Theorem C08_roundtrip_tokens_partial : forall ts d, parse_tokens ts = Ok d -> exec_only d = true -> toks_wf ts ->
+  exists d', parse (print_doc d) = Ok (d', false) /\ erase_loc d' = erase_loc d /\ print_doc d' = print_doc d.
+Proof. exact roundtrip_exec_tokens. Qed.
+Print Assumptions C08_roundtrip_tokens_partial.
+
+(* Values (nested lists and objects included): print, lex, derive, parse back. *)
+Theorem C08_value_roundtrip_partial : forall src ts mb fuel c v st', lex src = Ok (ts, mb) -> strings_ok_toks ts = true ->
+  parse_value fuel c (0, ts) = Ok (v, st') ->
+  exists ts' v', lex (print_value v) = Ok (ts' ++ [eof_tok (nlen (print_value v))], false) /\
+    gnl (g_value v') = gnl (g_value v) /\
+    forall fuel' pe, (length ts' < fuel')%nat ->
+      parse_value fuel' c (pe, ts' ++ [eof_tok (nlen (print_value v))]) = Ok (v', (endof pe ts', [eof_tok (nlen (print_value v))])).
+Proof. exact value_roundtrip_src. Qed.
+Print Assumptions C08_value_roundtrip_partial.
+
+(* non-vacuity: a source that satisfies the hypotheses *)
+Example C08_roundtrip_nonvacuous :
+  let src := of_string "query Q($a: [Int!] = [1, -2.5e3]) @d(x: ""s\n"") { a: b(x: {k: $a}) ... on T { c } ...F }" in
+  match parse src with Ok (d, _) => exec_only d && src_strings_utf8 src | _ => false end = true.
+Proof. vm_compute. reflexivity. Qed.
 
 (* non-vacuity of C08_lex_layout: the layout of a parsed executable document is well-formed *)
 Example C08_layout_nonvacuous :
